@@ -350,7 +350,7 @@ def _check(prop, tier, seed, py, modname, plan, scratch, ev_path, t0):
         return EXIT_VIOLATION
     if harness_errors:
         for h in harness_errors[:10]:
-            print('HARNESS-ERROR: %s' % h, file=sys.stderr)
+            print('HARNESS-ERROR: %s' % (h if len(h) < 700 else h[:250] + ' ... ' + h[-400:]), file=sys.stderr)
         return EXIT_HARNESS
     return EXIT_OK
 
